@@ -398,6 +398,12 @@ PROPS["C16"] = dict(
         ("c16_remove_unary", "x", "remove_child on unary kinds"),
         ("c16_remove_ternary_setvar", "x", "remove_child on ternary / set-var kinds"),
         ("c16_remove_repeat_foreach", "quick", "remove_child on Repeat, ForEach"),
+        ("c16_remove_bounds_k37_a2", "quick", "remove_child succeeds exactly for enumerated children (kind 37, arity 2)"),
+        ("c16_remove_bounds_k38_a2", "quick", "remove_child succeeds exactly for enumerated children (kind 38, arity 2)"),
+        ("c16_remove_bounds_k39_a2", "quick", "remove_child succeeds exactly for enumerated children (kind 39, arity 2)"),
+        ("c16_remove_bounds_k40_a2", "quick", "remove_child succeeds exactly for enumerated children (kind 40, arity 2)"),
+        ("c16_remove_bounds_k41_a2", "quick", "remove_child succeeds exactly for enumerated children (kind 41, arity 2)"),
+        ("c16_remove_bounds_k42_a2", "quick", "remove_child succeeds exactly for enumerated children (kind 42, arity 2)"),
         ("c16_remove_lists_a1", "x", "remove_child on list-like kinds, arity 1"),
         ("c16_remove_lists_a3_x", "x", "remove_child on Composite, Closure, Array (arity 3)"),
         ("c16_remove_lists_a3_y", "x", "remove_child on Call, CallNative, DynamicCall (arity 3)"),
@@ -582,6 +588,8 @@ PROPS["C04"] = dict(
     design_ref="DESIGN.md §3 C04",
     cap=dict(quick=600, thorough=900),
     harnesses=[
+        H("c10", "c10_decode_str_total_6", bounds="decode_str (string operands of StringLiteral / NativeFunctionPointer / property names) on any 0..=6 bytes: never panics"),
+        H("c10", "c10_read_str_total_8", bounds="read_str at any position of any 0..=8 data bytes: never panics"),
         _c04("c04_arith_full_add", "quick", b="[int x][int y][Add][Exit] over all i64 x,y", dispatches=4),
         _c04("c04_arith_full_sub", "thorough", b="same, Sub", dispatches=4),
         _c04("c04_arith_full_mul", "quick", b="same, Mul", dispatches=4),
@@ -677,6 +685,9 @@ PROPS["C05"] = dict(
 # compiler unit harnesses: Compiler::new() builds a default program (16-slot tables are zero-filled)
 _CX_LIM = {
     r"SpecFill<cao_lang::prelude::Handle>>::spec_fill$#0": 18,
+    # every error path clones the current namespace into the error's trace (empty in these harnesses)
+    r"^<smallvec::SmallVec<.*> as std::iter::Extend<.*>>::extend::<.*>$#*": 1,
+    r"^std::ptr::drop_(in_place|glue)::<\[std::boxed::Box<str>\]>$#*": 1,
     r"hash_map::CaoHashMap::<.*>::(grow|adjust_capacity)$": 0,
 }
 
@@ -685,6 +696,12 @@ def _cx(name, tier="quick", bounds="", **kw):
     lim = dict(_CX_LIM)
     lim.update(kw.pop("limits", {}))
     kw.setdefault("stubbing", True)
+    # the compiler keeps its locals in ArrayVec<Local, 255> (6 KB of MaybeUninit each) inside a Vec:
+    # with CBMC's default field-sensitivity limit (64) every access goes through the array theory
+    # and the propositional reduction runs out of memory; with the limit above the array size the
+    # cells are individual SSA symbols and constant addresses fold
+    kw.setdefault("cbmc_args", ["--max-field-sensitivity-array-size", "32768"])
+    kw.setdefault("timeout", 1500)
     return H("c08", name, tier, bounds=bounds, limits=lim, **kw)
 
 
@@ -721,15 +738,44 @@ PROPS["C10"] = dict(
         H("c10", "c10_roundtrip_str_5", "thorough", bounds="5-byte ASCII strings at offset 3"),
         H("c10", "c10_decode_str_total_6", bounds="decode_str on any 0..=6 bytes"),
         H("c10", "c10_decode_str_total_8", "thorough", bounds="decode_str on any 0..=8 bytes"),
+        H("c10", "c10_read_str_total_8", bounds="read_str at any position of any 0..=8 data bytes: total, inside the data"),
         H("c10", "c10_span_table", bounds="span for every byte value"),
         H("c08", "cx_compile_probe", "x", bounds="probe: compile main=[SetGlobalVar g = ScalarInt x]", stubbing=True, timeout=1500),
         _cx("cx_resolve_var_d0", "x", bounds="resolve_var, one function level"),
         _cx("cx_resolve_var_d1", "x", bounds="resolve_var, closure in function"),
+        _cx("cx_resolve_var_d1b", "x", bounds="resolve_var, closure in function"),
+        _cx("cx_resolve_var_d2b", "x", bounds="resolve_var, closure in closure in function"),
         _cx("cx_resolve_var_d2", "x", bounds="resolve_var, closure in closure in function"),
         _cx("cx_scope_end_emits", "x", bounds="scope_end"),
+        _cx("cx_add_function_duplicates", "x", bounds="add_function twice: modules root/a/a.b and names f/g solver-chosen (36 combinations), real format! for the full name",
+            limits={r"hash_map::CaoHashMap::<.*>::find_ind::<.*>#0": 17}, timeout=2400),
         _cx("cx_super_depth_7", "x", bounds="super_depth, 7 bytes"),
         _cx("cx_super_depth_9", "x", bounds="super_depth, 9 bytes"),
         _cx("cx_super_depth_13", "x", bounds="super_depth, 13 bytes"),
+        _cx("cx_resolve_fn_ns0_imp0", "x", bounds="resolve_function: caller module #0, import variant 0, 2^9 function tables x 5 names", limits={r"hash_map::CaoHashMap::<.*>::find_ind::<.*>#0": 17}),
+        _cx("cx_resolve_fn_ns0_imp1", "x", bounds="resolve_function: caller module #0, import variant 1, 2^9 function tables x 5 names", limits={r"hash_map::CaoHashMap::<.*>::find_ind::<.*>#0": 17}),
+        _cx("cx_resolve_fn_ns0_imp2", "x", bounds="resolve_function: caller module #0, import variant 2, 2^9 function tables x 5 names", limits={r"hash_map::CaoHashMap::<.*>::find_ind::<.*>#0": 17}),
+        _cx("cx_resolve_fn_ns0_imp3", "x", bounds="resolve_function: caller module #0, import variant 3, 2^9 function tables x 5 names", limits={r"hash_map::CaoHashMap::<.*>::find_ind::<.*>#0": 17}),
+        _cx("cx_resolve_fn_ns0_imp4", "x", bounds="resolve_function: caller module #0, import variant 4, 2^9 function tables x 5 names", limits={r"hash_map::CaoHashMap::<.*>::find_ind::<.*>#0": 17}),
+        _cx("cx_resolve_fn_ns0_imp5", "x", bounds="resolve_function: caller module #0, import variant 5, 2^9 function tables x 5 names", limits={r"hash_map::CaoHashMap::<.*>::find_ind::<.*>#0": 17}),
+        _cx("cx_resolve_fn_ns0_imp6", "x", bounds="resolve_function: caller module #0, import variant 6, 2^9 function tables x 5 names", limits={r"hash_map::CaoHashMap::<.*>::find_ind::<.*>#0": 17}),
+        _cx("cx_resolve_fn_ns0_imp7", "x", bounds="resolve_function: caller module #0, import variant 7, 2^9 function tables x 5 names", limits={r"hash_map::CaoHashMap::<.*>::find_ind::<.*>#0": 17}),
+        _cx("cx_resolve_fn_ns1_imp0", "x", bounds="resolve_function: caller module #1, import variant 0, 2^9 function tables x 5 names", limits={r"hash_map::CaoHashMap::<.*>::find_ind::<.*>#0": 17}),
+        _cx("cx_resolve_fn_ns1_imp1", "x", bounds="resolve_function: caller module #1, import variant 1, 2^9 function tables x 5 names", limits={r"hash_map::CaoHashMap::<.*>::find_ind::<.*>#0": 17}),
+        _cx("cx_resolve_fn_ns1_imp2", "x", bounds="resolve_function: caller module #1, import variant 2, 2^9 function tables x 5 names", limits={r"hash_map::CaoHashMap::<.*>::find_ind::<.*>#0": 17}),
+        _cx("cx_resolve_fn_ns1_imp3", "x", bounds="resolve_function: caller module #1, import variant 3, 2^9 function tables x 5 names", limits={r"hash_map::CaoHashMap::<.*>::find_ind::<.*>#0": 17}),
+        _cx("cx_resolve_fn_ns1_imp4", "x", bounds="resolve_function: caller module #1, import variant 4, 2^9 function tables x 5 names", limits={r"hash_map::CaoHashMap::<.*>::find_ind::<.*>#0": 17}),
+        _cx("cx_resolve_fn_ns1_imp5", "x", bounds="resolve_function: caller module #1, import variant 5, 2^9 function tables x 5 names", limits={r"hash_map::CaoHashMap::<.*>::find_ind::<.*>#0": 17}),
+        _cx("cx_resolve_fn_ns1_imp6", "x", bounds="resolve_function: caller module #1, import variant 6, 2^9 function tables x 5 names", limits={r"hash_map::CaoHashMap::<.*>::find_ind::<.*>#0": 17}),
+        _cx("cx_resolve_fn_ns1_imp7", "x", bounds="resolve_function: caller module #1, import variant 7, 2^9 function tables x 5 names", limits={r"hash_map::CaoHashMap::<.*>::find_ind::<.*>#0": 17}),
+        _cx("cx_resolve_fn_ns2_imp0", "x", bounds="resolve_function: caller module #2, import variant 0, 2^9 function tables x 5 names", limits={r"hash_map::CaoHashMap::<.*>::find_ind::<.*>#0": 17}),
+        _cx("cx_resolve_fn_ns2_imp1", "x", bounds="resolve_function: caller module #2, import variant 1, 2^9 function tables x 5 names", limits={r"hash_map::CaoHashMap::<.*>::find_ind::<.*>#0": 17}),
+        _cx("cx_resolve_fn_ns2_imp2", "x", bounds="resolve_function: caller module #2, import variant 2, 2^9 function tables x 5 names", limits={r"hash_map::CaoHashMap::<.*>::find_ind::<.*>#0": 17}),
+        _cx("cx_resolve_fn_ns2_imp3", "x", bounds="resolve_function: caller module #2, import variant 3, 2^9 function tables x 5 names", limits={r"hash_map::CaoHashMap::<.*>::find_ind::<.*>#0": 17}),
+        _cx("cx_resolve_fn_ns2_imp4", "x", bounds="resolve_function: caller module #2, import variant 4, 2^9 function tables x 5 names", limits={r"hash_map::CaoHashMap::<.*>::find_ind::<.*>#0": 17}),
+        _cx("cx_resolve_fn_ns2_imp5", "x", bounds="resolve_function: caller module #2, import variant 5, 2^9 function tables x 5 names", limits={r"hash_map::CaoHashMap::<.*>::find_ind::<.*>#0": 17}),
+        _cx("cx_resolve_fn_ns2_imp6", "x", bounds="resolve_function: caller module #2, import variant 6, 2^9 function tables x 5 names", limits={r"hash_map::CaoHashMap::<.*>::find_ind::<.*>#0": 17}),
+        _cx("cx_resolve_fn_ns2_imp7", "x", bounds="resolve_function: caller module #2, import variant 7, 2^9 function tables x 5 names", limits={r"hash_map::CaoHashMap::<.*>::find_ind::<.*>#0": 17}),
     ],
 )
 
